@@ -127,6 +127,11 @@ unary wrapper whose function computes with None (`lambda u: u / other`) is refut
 as it is on a path that numbers never reach (an earlier branch took them) is a site, not "unpromoted".  Under C17 only:
 a method of Weekly/DirectCalendar that returns the internal table itself (no copy) is refuted (leaf_semantics).
 
+Round 10 additions.  validation: WeeklyCalendar's scalar `units_per_day` must itself be tested `< 0 -> RuntimeError`
+(a check of the entries of a table built from it is vacuous for `days=[]`); missing -> refuted under the usual closed-world
+condition.  search override: a raise on the way to the delegation whose condition consults neither the capacity nor the
+direction is refuted ("raises without searching"); one that does is undecided.
+
 The decision procedures evaluate the (loop free) blocks over finite abstract domains (see c17_util): unit values by
 sign class {None, <0, 0, >0}, dates by their position against a validity interval, direction in {-1, +1}.
 
@@ -1162,7 +1167,8 @@ def _folds(ctx, table):
                     from sa.model import Program
                     from sa.types import Typer
                     try:
-                        rp = Program(prog.repo, normalise=False)
+                        # the same source texts as the analysed program (in-memory overrides of the thorough tier included)
+                        rp = Program(prog.repo, overrides={m_.rel: m_.src for m_ in prog.modules.values()}, normalise=False)
                         raw[0] = C2(rp, Typer(rp))
                     except Exception:
                         raw[0] = False
@@ -1880,6 +1886,45 @@ def _zero_test_on_promoted(ctx, o, f, g, other):
     return False
 
 
+def _scalar_units_guard(ctx, o, f, gs):
+    """WeeklyCalendar(days=[..], units_per_day=<number>): the number itself is rejected when negative, whatever `days`
+    holds.  A check of the *entries* of a table derived from it (`{d: units_per_day for d in days}`) is vacuous for an
+    empty days list."""
+    p = 'units_per_day'
+    numeric = any(isinstance(n, ast.Compare) or isinstance(n, ast.Call) for n in walk_no_nested(f.node)
+                  if (match("type($x) is $t", n) or match("type($x) in $t", n) or match("isinstance($x, $t)", n) or match("type($x) == $t", n))
+                  and any(isinstance(y, ast.Name) and y.id in ('int', 'float') for y in ast.walk(n)))
+    if not numeric:
+        return
+
+    def direct(a):
+        return any((isinstance(n, ast.Compare) and not any(isinstance(o_, (ast.In, ast.NotIn)) for o_ in n.ops)
+                    and any(_name(x, p) for x in [n.left] + n.comparators))
+                   or (isinstance(n, ast.Call) and any(_name(x, p) for x in n.args)
+                       and not (isinstance(n.func, ast.Name) and n.func.id in ('type', 'isinstance', 'len', 'list', 'dict'))) for n in ast.walk(a))
+    odd = None
+    for g in gs:
+        for cl in g.clauses:
+            for a, pol in cl:
+                sa = U.sign_atom(a, pol)
+                if sa is not None and _name(sa[0], p):
+                    if len(cl) == 1 and sa[1] == '<' and g.exc == 'RuntimeError' and \
+                            all(U.is_mode_clause(c, ('days', p)) for c in g.clauses if c is not cl):
+                        o.site(f, g.anchor, f"WeeklyCalendar: a negative number as {p} -> RuntimeError" + (f" (via {g.func.name})" if g.via is not None else ''))
+                        return
+                    odd = odd or (g, a)          # judged by units_nonnegative (wrong comparator / exception / extra conditions)
+                elif not U.is_mode_atom(a, pol) and direct(a):
+                    odd = odd or (g, a)
+    if odd is not None:
+        return
+    un = _unfollowed(ctx, f, [p])
+    if un:
+        o.undecided(f, un[0], un[0], f"WeeklyCalendar: no `{p} < 0` guard on the number found, but `{src(un[0])[:60]}` receives it and was not looked into")
+        return
+    o.refute(f, f.node, f"missing:{p} < 0", f"WeeklyCalendar(days=[..], {p}=<number>): no RuntimeError guard tests the number itself for `< 0`; "
+             f"checking only the entries of a table built from it is vacuous when `days` is empty, so a negative number is accepted")
+
+
 def _validation(ctx):
     prog = ctx.prog
     o = ctx.ob('validation', 'R2', "RuntimeError guards: week days outside 0..6 (days list and units_per_day keys), start after "
@@ -1895,6 +1940,7 @@ def _validation(ctx):
         _weekday_guard(ctx, o, f, gs, 'days', 'WeeklyCalendar(days=[..])', keys=False)
         _weekday_guard(ctx, o, f, gs, 'units_per_day', 'WeeklyCalendar(units_per_day={weekday: ..})', keys=True)
         _start_end_guard(ctx, o, f, gs, 'WeeklyCalendar')
+        _scalar_units_guard(ctx, o, f, gs)
         f = prog.func('calendar.FixedCalendar.__init__')
         for p in ('start', 'end', 'units'):
             if p not in f.params:
@@ -3244,6 +3290,21 @@ def _search(ctx):
                     o.refute(f, r, given[p], f"{f.cls} overrides get_nearest_availability_date and passes `{src(given[p])[:50]}` as {role} "
                                               f"instead of the caller's `{p}`")
                     ok = False
+        # "only delegates": a raise on the way to the delegation is an answer given without searching
+        cfg_ = cfg_of(f)
+        for rs in [n for n in walk_no_nested(f.node) if isinstance(n, ast.Raise) and cfg_.node_of(n) is not None and cfg_.is_reachable(cfg_.node_of(n))]:
+            cl = U.path_clauses(prog, f, rs, ctx.typer)
+            when = ' and '.join(U.clause_text(c) for c in cl)[:120]
+            if any(isinstance(x, ast.Attribute) and x.attr == 'get_available_units' for c in cl for a, _ in c for x in ast.walk(a)) or \
+                    any(U.mentions(a, 'direction') for c in cl for a, _ in c):
+                o.undecided(f, rs, rs, f"{f.cls} override raises before delegating when {when}: a shortcut that looks at the capacity / "
+                                       f"the direction itself, not followed")
+            else:
+                o.refute(f, rs, rs, f"{f.cls} overrides get_nearest_availability_date and raises without searching"
+                         + (f" when {when}" if when else '') + ": RuntimeError must be raised exactly when no date with positive capacity "
+                         "exists within the horizon in the search direction, and this condition consults neither the capacity nor the direction "
+                         "(e.g. a backward search from after a calendar's end walks back into its validity)")
+            ok = False
         if ok:
             # the defaults of the override must agree with the base (max_days=100000)
             o.site(f, f.node, f"{f.cls} override only delegates to the inherited search with unchanged arguments")
